@@ -407,6 +407,20 @@ func (w *zzW) keyAndPrefixOps(anyOp bool) int { return w.keyAndPrefixD(anyOp, fa
 // the thorough tier.
 func (w *zzW) keyAndPrefixDeep(anyOp bool) int { return w.keyAndPrefixD(anyOp, true) }
 
+// keyAndPrefixWide: for the law with the widest tail (after_final): prefix from
+// the empty store bounded by "depth_f" (default: depth).
+func (w *zzW) keyAndPrefixWide() int {
+	k := zzChoice("key", zzParam("lawkeys", 2))
+	menu := zzChoice("base", zzNBase)
+	w.base(k, menu, "base", false)
+	if menu == zzBaseEmpty {
+		w.prefixN(zzParam("depth_f", zzParam("depth", 2)), k)
+	} else {
+		w.prefixN(zzParam("depth_b", 1), k)
+	}
+	return k
+}
+
 func (w *zzW) keyAndPrefixD(anyOp, deep bool) int {
 	nk, d, db := zzParam("lawkeys", 2), zzParam("depth", 2), zzParam("depth_b", 1)
 	k := zzChoice("key", nk)
